@@ -76,3 +76,134 @@ def dump_index():
     out["group"] = sorted((g.id, g.name) for g in StorageGroup.select())
     out["rule"] = sorted((a.node_from_id, a.group_to_id, bool(a.autosync), bool(a.autoclean)) for a in StorageTransferAction.select())
     return out
+
+
+# ---- files, copies, requests -----------------------------------------------------------------------------------
+import hashlib  # noqa: E402
+
+
+def content_of(tag: int, size: int) -> bytes:
+    """deterministic content: distinct per tag"""
+    seed = hashlib.sha256(str(tag).encode()).digest()
+    return (seed * (size // len(seed) + 1))[:size]
+
+
+def mkacq(name):
+    return ArchiveAcq.get_or_create(name=name)[0]
+
+
+def mkfile(acq, name, content: bytes | None = None, size_b="auto", md5sum="auto"):
+    if content is not None:
+        if size_b == "auto":
+            size_b = len(content)
+        if md5sum == "auto":
+            md5sum = hashlib.md5(content).hexdigest()
+    else:
+        size_b = None if size_b == "auto" else size_b
+        md5sum = None if md5sum == "auto" else md5sum
+    return ArchiveFile.create(acq=acq, name=name, size_b=size_b, md5sum=md5sum)
+
+
+def put_on_disk(node, file, content: bytes):
+    p = pathlib.Path(node.root, file.acq.name, file.name)
+    p.parent.mkdir(parents=True, exist_ok=True)
+    p.write_bytes(content)
+    return p
+
+
+def mkcopy(node, file, has="Y", wants="Y", size_b=None, **kw):
+    return ArchiveFileCopy.create(node=node, file=file, has_file=has, wants_file=wants, size_b=size_b, **kw)
+
+
+def mkreq(file, node_from, group_to, **kw):
+    return ArchiveFileCopyRequest.create(file=file, node_from=node_from, group_to=group_to, **kw)
+
+
+def tree_listing(root) -> list:
+    """sorted recursive listing with content digests (files) — canonical observation of a node tree"""
+    root = pathlib.Path(root)
+    out = []
+    if not root.exists():
+        return out
+    for p in sorted(root.rglob("*")):
+        rel = str(p.relative_to(root))
+        if p.is_symlink():
+            out.append((rel, "link", None))
+        elif p.is_dir():
+            out.append((rel, "dir", None))
+        else:
+            out.append((rel, "file", hashlib.md5(p.read_bytes()).hexdigest()))
+    return out
+
+
+class SqlFault:
+    """log every SQL statement issued through the current database and optionally raise at the k-th"""
+
+    def __init__(self, sdb, fail_at=None, exc=None, verbs=None):
+        self.sdb, self.fail_at, self.n, self.log = sdb, fail_at, 0, []
+        self.exc = exc or pw.OperationalError("injected by the harness")
+        self.verbs = verbs  # count only statements starting with these verbs (None = all)
+        self.orig = sdb.execute_sql
+
+    def __enter__(self):
+        def execute_sql(sql, params=None, *a, **k):
+            verb = sql.split(None, 1)[0].upper() if sql.strip() else ""
+            counted = self.verbs is None or verb in self.verbs
+            if counted:
+                self.n += 1
+            self.log.append((self.n, verb, sql[:80], self.sdb.transaction_depth()))
+            if counted and self.fail_at is not None and self.n == self.fail_at:
+                raise self.exc
+            return self.orig(sql, params, *a, **k)
+
+        self.sdb.execute_sql = execute_sql
+        return self
+
+    def __exit__(self, *a):
+        try:
+            del self.sdb.execute_sql
+        except AttributeError:
+            self.sdb.execute_sql = self.orig
+        return False
+
+
+class StepQueue:
+    """a real FairMultiFIFOQueue whose get() never blocks for long"""
+
+    @staticmethod
+    def make():
+        from alpenhorn.scheduler import FairMultiFIFOQueue
+
+        class Q(FairMultiFIFOQueue):
+            def get(self, timeout=None):
+                return super().get(timeout=0.001)
+
+        return Q()
+
+
+def drain_with_workers(queue, max_tasks=200):
+    """run every queued task through the real Worker.run (so its fault containment applies);
+    a worker that exits after a database error is replaced, as WorkerPool.check would.
+    Returns (number of worker exits with error, global_abort set?)"""
+    from alpenhorn.scheduler import pool
+
+    exits = 0
+    for _ in range(max_tasks):
+        if queue.qsize == 0 and queue.inprogress_size == 0 and queue.deferred_size == 0:
+            break
+        w = pool.Worker(queue, 0)
+        orig_get = queue.get
+
+        def get(timeout=None, _w=w, _orig=orig_get):
+            r = _orig(timeout=timeout)
+            if r is None:
+                _w._worker_stop.set()
+            return r
+
+        w._queue = type("QProxy", (), {"get": staticmethod(get), "task_done": queue.task_done})()
+        r = w.run()
+        if r == 1:
+            exits += 1
+        if pool.global_abort.is_set():
+            return exits, True
+    return exits, pool.global_abort.is_set()
